@@ -179,6 +179,16 @@ pub struct {} {{
     output.push('}');
 }
 
+/// `void` fields take no slot in a variant's payload (the compiler erases them), so the
+/// bindings only carry the remaining fields.
+fn non_void_fields(fields: &[VariantField]) -> Vec<VariantField> {
+    fields
+        .iter()
+        .filter(|f| !matches!(&*f.ty.kind, TypeKind::Void))
+        .cloned()
+        .collect()
+}
+
 pub(crate) fn emit_enum_def(output: &mut String, e: &EnumDef, flavor: BindingFlavor) {
     swrite!(
         output,
@@ -189,9 +199,10 @@ pub enum {} {{
     );
     for variant in &e.variants {
         swrite!(output, "{}", variant.ctor.v);
-        if !variant.fields.is_empty() {
+        let fields = non_void_fields(&variant.fields);
+        if !fields.is_empty() {
             output.push('(');
-            output.push_str(&name_of_variant_data_ty(&variant.fields));
+            output.push_str(&name_of_variant_data_ty(&fields));
             output.push(')');
         }
         output.push(',');
@@ -214,8 +225,9 @@ pub enum {} {{
     output.push_str("match tag {");
     for (i, variant) in e.variants.iter().enumerate() {
         swrite!(output, "{i} => {{");
-        if !variant.fields.is_empty() {
-            let tyname = name_of_variant_data_ty(&variant.fields);
+        let fields = non_void_fields(&variant.fields);
+        if !fields.is_empty() {
+            let tyname = name_of_variant_data_ty(&fields);
             swrite!(output, "let value: {tyname} = ");
             flavor.vm_from_call(output, &tyname);
             output.push(';');
@@ -235,7 +247,7 @@ pub enum {} {{
     flavor.open_body(output);
     output.push_str("match self {");
     for (i, variant) in e.variants.iter().enumerate() {
-        if !variant.fields.is_empty() {
+        if !non_void_fields(&variant.fields).is_empty() {
             swrite!(output, "{}::{}(value) => {{", e.name.v, variant.ctor.v);
             flavor.to_vm_call(output, "value");
             flavor.construct_variant(output, i);
